@@ -12,10 +12,10 @@ import (
 // Untrusted helpers for building steered inputs.  Nothing here is used as an oracle.
 
 var (
-	bigP, _   = new(big.Int).SetString("fffffffffffffffffffffffffffffffffffffffffffffffffffffffefffffc2f", 16)
-	bigN, _   = new(big.Int).SetString("fffffffffffffffffffffffffffffffebaaedce6af48a03bbfd25e8cd0364141", 16)
-	big2_256  = new(big.Int).Lsh(big.NewInt(1), 256)
-	bigOne    = big.NewInt(1)
+	bigP, _      = new(big.Int).SetString("fffffffffffffffffffffffffffffffffffffffffffffffffffffffefffffc2f", 16)
+	bigN, _      = new(big.Int).SetString("fffffffffffffffffffffffffffffffebaaedce6af48a03bbfd25e8cd0364141", 16)
+	big2_256     = new(big.Int).Lsh(big.NewInt(1), 256)
+	bigOne       = big.NewInt(1)
 	bigLambda, _ = new(big.Int).SetString("5363ad4cc05c30e0a5261c028812645a122e22ea20816678df02967c1b23bd72", 16)
 )
 
